@@ -1109,6 +1109,27 @@ func (g *lcGen) scriptAssets(v *lcView) []string {
 	return out
 }
 
+// scriptManagerDestroy: the manager is not the creator; it tries to destroy while IT holds the whole supply (rejected: the
+// creator must), then hands the supply back and destroys.
+func (g *lcGen) scriptManagerDestroy(v *lcView) []string {
+	u := g.funded(v, 2, 3000000)
+	if len(u) < 2 {
+		return nil
+	}
+	a, b := u[0], u[1]
+	aid := g.h.ev.VerifLcoreCounter() + 1
+	total := g.pick(1, 100, ^uint64(0))
+	var out []string
+	one := func(t string) { out = append(out, "group "+t) }
+	one(g.ph("acfg", a) + fmt.Sprintf(",0,%d,0,0,%d,0,0,0", total, b))
+	one(g.ph("axfer", b) + fmt.Sprintf(",%d,0,0,%d,0", aid, b))
+	one(g.ph("axfer", a) + fmt.Sprintf(",%d,%d,0,%d,0", aid, total, b))
+	one(g.ph("acfg", b) + fmt.Sprintf(",%d,0,0,0,0,0,0,0", aid)) // the manager holds everything, the creator nothing
+	one(g.ph("axfer", b) + fmt.Sprintf(",%d,%d,0,%d,0", aid, g.pick(total, total, total-1), a))
+	one(g.ph("acfg", b) + fmt.Sprintf(",%d,0,0,0,0,0,0,0", aid))
+	return out
+}
+
 // scriptMinBal: an account is brought to exactly its min balance, then its requirement is raised / lowered
 func (g *lcGen) scriptMinBal(v *lcView) []string {
 	u := g.funded(v, 1, 5000000)
@@ -1240,7 +1261,7 @@ func TestVerifLcore(t *testing.T) {
 		seed = seed*131 + uint64(c)
 	}
 	g := &lcGen{r: vh.NewRng(seed), profile: profile, h: h, nonce: 0}
-	cases := vh.Budget(40, 1500)
+	cases := vh.Budget(40, 600)
 	for c := 0; c < cases; c++ {
 		op := g.genesis()
 		out.Emit(op, h.exec(op))
@@ -1258,7 +1279,9 @@ func TestVerifLcore(t *testing.T) {
 			g.okTxns = nil
 			ngroups := 6 + g.r.Intn(18)
 			var script []string
-			if (profile == "c22" && g.r.Chance(60)) || (profile != "c22" && g.r.Chance(15)) {
+			if profile == "c22" && g.r.Chance(15) {
+				script = g.scriptManagerDestroy(h.view())
+			} else if (profile == "c22" && g.r.Chance(60)) || (profile != "c22" && g.r.Chance(15)) {
 				script = g.scriptAssets(h.view())
 			} else if (profile == "c21" && g.r.Chance(60)) || (profile != "c21" && g.r.Chance(10)) {
 				script = g.scriptMinBal(h.view())
